@@ -183,7 +183,7 @@ fn draw_steps(rng: &mut Rng, index: u64) -> Vec<Step> {
             if !it.nondet {
                 // items over a flat file set are, a third of the time, compiled through
                 // FsLoader::for_cwd() after a chdir (the reference in the same way)
-                if it.cwd.is_empty() && !it.files.is_empty() && it.files.keys().all(|k| !k.starts_with('/') && !k.contains("..")) && rng.chance(1, 3) {
+                if it.cwd.is_empty() && !it.files.is_empty() && it.files.keys().all(|k| !k.starts_with('/') && !k.contains("..")) && rng.chance(1, 2) {
                     it.via_cwd = true;
                 }
                 v.push(it);
@@ -204,7 +204,7 @@ fn draw_steps(rng: &mut Rng, index: u64) -> Vec<Step> {
             sib
         } else {
             let mut it = draw_item(rng);
-            if it.cwd.is_empty() && !it.files.is_empty() && it.files.keys().all(|k| !k.starts_with('/') && !k.contains("..")) && rng.chance(1, 4) {
+            if it.cwd.is_empty() && !it.files.is_empty() && it.files.keys().all(|k| !k.starts_with('/') && !k.contains("..")) && rng.chance(1, 2) {
                 it.via_cwd = true;
             }
             it
